@@ -88,7 +88,7 @@ type WOpts struct {
 }
 
 var WireFeatures = []string{"bind", "bind-value-impl", "value", "ivalue", "struct", "struct-fields", "struct-value-consumer", "fieldsof", "fieldsof-value", "fieldsof-ptr",
-	"sets", "nested-sets", "inline-sets", "inline-sets-deep", "struct-unexported-field", "ext-alias-suffix", "ext-name-differs-from-path", "ext-alias-equals-directory", "composite", "same-name-packages-across-files", "fieldsof-twice", "second-injector", "twin-types-in-same-named-packages", "value-ext-var", "build-in-panic", "pkg-level-name-equals-aliased-package", "struct-field-named-like-package", "struct-field-named-like-type", "bind-two-interfaces", "wire-paren", "struct-keyword-field", "struct-noinject-tag", "struct-no-fields", "named-alias", "wire-import-alias", "wire-legacy-build-tag", "wire-sets-in-var-block", "value-ext-nested-selector", "decoy-constructor-in-migrated-package", "struct-in-ext-package", "fieldsof-in-ext-package", "err", "args", "unused-arg", "multi-file", "ext", "bind-foreign-ctor", "bind-split-set", "multi-result"}
+	"sets", "nested-sets", "inline-sets", "inline-sets-deep", "struct-unexported-field", "ext-alias-suffix", "ext-name-differs-from-path", "ext-alias-equals-directory", "composite", "same-name-packages-across-files", "fieldsof-twice", "second-injector", "twin-types-in-same-named-packages", "value-ext-var", "build-in-panic", "ivalue-concrete-also-provided", "pkg-level-name-equals-aliased-package", "struct-field-named-like-package", "struct-field-named-like-type", "bind-two-interfaces", "wire-paren", "struct-keyword-field", "struct-noinject-tag", "struct-no-fields", "named-alias", "wire-import-alias", "wire-legacy-build-tag", "wire-sets-in-var-block", "value-ext-nested-selector", "decoy-constructor-in-migrated-package", "struct-in-ext-package", "fieldsof-in-ext-package", "err", "args", "unused-arg", "multi-file", "ext", "bind-foreign-ctor", "bind-split-set", "multi-result"}
 
 func WAllowAll(except ...string) map[string]bool {
 	m := map[string]bool{}
@@ -411,6 +411,15 @@ func GenWire(rt *rapid.T, o WOpts) *WCase {
 			it := g.addType(Type{Kind: KIface, Name: g.name("I"), Impl: s, AliasSpell: g.aliasName()})
 			g.c.Types[int(it)].Method = "VH" + g.c.T(it).Name
 			g.addUnit(WElem{Kind: "ivalue", Iface: it, Type: s, Var: g.name("ival"), H: uint32(rapid.IntRange(1, 1<<20).Draw(rt, "h"))}, nil, []TypeID{it})
+			if g.want("ivalue-concrete-also-provided", "ivalconc", 30) {
+				// wire.InterfaceValue provides the interface only: the concrete type may have a
+				// provider of its own
+				g.pid++
+				p := Prov{ID: g.pid, Form: "func", Name: "New" + g.c.T(s).Name, Results: []TypeID{s}}
+				g.used["."+p.Name] = true
+				g.c.Provs = append(g.c.Provs, p)
+				g.addUnit(WElem{Kind: "prov", Prov: p.ID}, nil, []TypeID{s})
+			}
 		case !last && k < 26 && len(g.supplied) > 0 && g.want("struct", "isstruct", 100):
 			g.genStruct()
 		case !last && k < 38 && g.want("fieldsof", "isfieldsof", 100):
